@@ -172,6 +172,7 @@ package genetics
 //@   ensures [speciesMemKept] forall b :: wasAllocated(b) && b != old(base(pop.Species)) ==> Mem[*Species][b] == old(Mem[*Species][b])
 //@ func (*Population).speciate
 //@   props C08
+//@   abstracts select
 //@   requires p != nil && neat.ErrNEATOptionsNotFound != nil
 //@   requires forall i :: 0 <= i && i < len(organisms) ==> organisms[i] != nil && organisms[i].Genotype != nil && nonNilGenes(organisms[i].Genotype.Genes)
 //@   requires speciesOrgsWF(p)
@@ -360,7 +361,9 @@ package genetics
 //@   ensures [released] !sel(gLocked, p.mutex)
 //@ func (*Population).NextInnovationNumber
 //@   props C16
+//@   abstracts interior pointer
 //@   requires p != nil
 //@ func (*Population).NextNodeId
 //@   props C16
+//@   abstracts interior pointer
 //@   requires p != nil
